@@ -80,21 +80,35 @@ def java_ground_truth_batch(progs, workdir):
             f.write(drv)
         files += [os.path.join(jd, name), os.path.join(jd, f"Drv{ident}.java")]
     out = {}
+    p = None
     try:
         p = subprocess.run(["javac", "-nowarn", "-d", jd] + files, capture_output=True, text=True, timeout=600)
         compiled = p.returncode == 0
     except Exception:
         compiled = False
-    if not compiled:
-        # compile one by one so that a single rejected program does not cost the batch
+    rounds = 0
+    while not compiled and rounds < 4:
+        # drop the programs javac rejects (statically unreachable code in a few skeletons) and compile the rest again
+        rounds += 1
+        import re as _re
+        bad = set(_re.findall(r"(Sk\d+)\.java:\d+: error", p.stderr if p is not None else ""))
+        bad |= set("Sk" + m for m in _re.findall(r"Drv(\d+)\.java:\d+: error", p.stderr if p is not None else ""))
+        if not bad:
+            break
         for name, ident, text, vecs in progs:
-            try:
-                p = subprocess.run(["javac", "-nowarn", "-d", jd, os.path.join(jd, name), os.path.join(jd, f"Drv{ident}.java")],
-                                   capture_output=True, text=True, timeout=120)
-                if p.returncode != 0:
-                    out[name] = None
-            except Exception:
+            if name[:-5] in bad:
                 out[name] = None
+        files = [f for f in files if os.path.basename(f)[:-5].replace("Drv", "Sk") not in bad and os.path.basename(f)[:-5] not in bad]
+        if not files:
+            break
+        try:
+            p = subprocess.run(["javac", "-nowarn", "-d", jd] + files, capture_output=True, text=True, timeout=600)
+            compiled = p.returncode == 0
+        except Exception:
+            compiled = False
+    if not compiled:
+        for name, ident, text, vecs in progs:
+            out.setdefault(name, None)
     for name, ident, text, vecs in progs:
         if name in out:
             continue
